@@ -54,7 +54,7 @@ def cases(tier, seed):
                     n = 2 * bx + 1 if variant == 0 else bx
                     nf = bb + 1 if variant == 0 else 2 * bb
                     for ki, key in enumerate(keys):
-                        for mode in (("eager", "jit") if (tier == "thorough" or ki == 0) else ("eager",)):
+                        for mode in (("eager", "jit", "jaxjit") if (tier == "thorough" or ki == 0) else ("eager",)):
                             cfg = dict(kind="nonstatio", nt=nt, bt=bt, n=n, bx=bx, dim=dim,
                                        min_pts=[-1.0] if dim == 1 else [-1.0, 3.0], max_pts=[2.0] if dim == 1 else [2.0, 4.0],
                                        tmin=10.0, tmax=12.0, nb=4 * nf if dim == 2 else 2, bb=bb if dim == 2 else 2, cartesian=cart, key=key)
@@ -75,8 +75,10 @@ def _draw(g, mode):
     if mode == "eager":
         return g.get_batch()
     if not _JIT:
+        import jax
         _JIT.append(eqx.filter_jit(lambda gg: gg.get_batch()))
-    return _JIT[0](g)
+        _JIT.append(jax.jit(lambda gg: gg.get_batch()))  # the way jinns.solve jits its draws (integer fields are traced)
+    return _JIT[1 if mode == "jaxjit" else 0](g)
 
 
 def _members(rows_, store):
